@@ -196,7 +196,14 @@ func tsExtract(repo string) (stateFunc, reduceFrame, tail string) {
 	if id, ok := call.Args[0].(*ast.Ident); !ok || id.Name != "str" {
 		panic("buildReduceFunc: the format is not str")
 	}
-	if _, ok := call.Args[1].(*ast.Ident); !ok {
+	// the hole is filled with the per-rule case text: a variable, or `x.String()` of a strings.Builder
+	arg := call.Args[1]
+	if ce, ok := arg.(*ast.CallExpr); ok && len(ce.Args) == 0 {
+		if se, ok := ce.Fun.(*ast.SelectorExpr); ok && se.Sel.Name == "String" {
+			arg = se.X
+		}
+	}
+	if _, ok := arg.(*ast.Ident); !ok {
 		panic("buildReduceFunc: the argument of the format is not a variable")
 	}
 	tl, ok := sum.Y.(*ast.BasicLit)
